@@ -19,7 +19,7 @@ type muxStream struct{}
 
 func (muxStream) Name() string { return "mux" }
 func (muxStream) Rule() string {
-	return "(the table is built on a Mux from NewMux or, for every second frame, on a zero-value Mux) route tables of 0..6 registrations drawn from every route kind (bind, search with base DN / filter / scope criteria over an alphabet with case variants, extended with three names, modify, add, delete) with and without (re-registered) default and unbind routes, crossed with requests of all kinds over the same alphabet, decoded from real bytes; exhaustive over all tables of <= 2 routes x all alphabet requests in the thorough tier, random beyond; oracle: exactly one handler, the first matching one by an independent reference, or a refusal with the request's id, unwillingToPerform and the operation's response tag; non-trivial = at least one route of the request's kind, distinct by case"
+	return "(the table is built on a Mux from NewMux or, for every second frame, on a zero-value Mux) route tables of 0..6 registrations drawn from every route kind (bind, search with base DN / filter / scope criteria over an alphabet with case variants - ASCII, and non-ASCII ones whose two cases differ in UTF-8 length (judged by the reference oracle alone) -, extended with three names, modify, add, delete) with and without (re-registered) default and unbind routes, crossed with requests of all kinds over the same alphabet, decoded from real bytes; exhaustive over all tables of <= 2 routes x all alphabet requests in the thorough tier, random beyond; oracle: exactly one handler, the first matching one by an independent reference, or a refusal with the request's id, unwillingToPerform and the operation's response tag; non-trivial = at least one route of the request's kind, distinct by case"
 }
 
 var (
@@ -27,7 +27,12 @@ var (
 	// long s; the Lean model folds ASCII only and skips tables with such criteria, the reference oracle judges them)
 	muxBases   = []string{"", "dc=example,dc=org", "DC=EXAMPLE,DC=ORG", "ou=people,dc=example,dc=org"}
 	muxFilters = []string{"", "(cn=alice)", "(CN=ALICE)", "(uid=bob)"}
-	muxUniBases = []string{"OU=ΣΎΛΛΟΓΟΣ,dc=example,dc=org", "ou=σύλλογος,dc=example,dc=org"}
+	muxUniBases = []string{"OU=ΣΎΛΛΟΓΟΣ,dc=example,dc=org", "ou=σύλλογος,dc=example,dc=org",
+		// case variants whose UTF-8 encodings differ in LENGTH (capital sharp s 3 bytes / sharp s 2, Kelvin sign 3 / k 1,
+		// long s 2 / S 1); every one of them keeps a non-ASCII letter, so the ASCII-folding model skips the table
+		"ou=STRA\u1e9eE,dc=example,dc=org", "ou=stra\u00dfe,dc=example,dc=org",
+		"ou=\u212a\u00f6ln,dc=example,dc=org", "ou=k\u00f6ln,dc=example,dc=org",
+		"ou=\u017f\u00fcd,dc=example,dc=org", "ou=S\u00fcd,dc=example,dc=org"}
 	muxNames   = []string{"1.3.6.1.4.1.1466.20037", "1.3.6.1.4.1.4203.1.11.3", "1.2.3"}
 )
 
